@@ -440,7 +440,8 @@ MANIFEST_META = {
                   "generation uses are evaluated node by node in kingdon and in an independent exact ring: every node must denote "
                   "the same function (evaluated at rational points from the raw numerator/denominator and through tosympy), zero "
                   "tests and truthiness must be exact, == must be sound, and the monomial-order invariant the merge addition relies on "
-                  "must hold; operands must not be mutated.",
+                  "must hold; operands must not be mutated."
+                  " Every exponent 5..20 is enumerated (addition chains).",
     "level_note": "Trusted: kv.ring.Q, sympy subs. Floats restricted to dyadic values so that comparisons stay exact; trees dividing by "
                   "other ints are compared at 1e-9 and their zero tests skipped.",
 }
